@@ -26,6 +26,7 @@ type SpecEnv struct {
 	qn      int
 	atEnd   bool
 	inOld   bool
+	lets    []LetDef
 }
 
 type specErr struct{ msg string }
@@ -240,6 +241,11 @@ func (e *SpecEnv) eval(x SpecExpr) Val {
 func (e *SpecEnv) evalIdent(name string) Val {
 	if v, ok := e.names[name]; ok {
 		return v
+	}
+	for _, ld := range e.lets {
+		if ld.Name == name {
+			return e.eval(ld.Expr)
+		}
 	}
 	if name == "result" {
 		if len(e.results) == 0 {
@@ -573,7 +579,9 @@ func (e *SpecEnv) evalIndex(x *SIndex) Val {
 	case *types.Map:
 		kd := c.so.heapMapVal(t.Key(), t.Elem())
 		k := e.coerce(iv, t.Key())
-		return Val{T: t.Elem(), S: fmt.Sprintf("(select (select %s %s) %s)", e.st.get(kd), base.S, c.termOf(k))}
+		// as in Go: a missing key (or a nil map) yields the zero value
+		has := fmt.Sprintf("(and (not (= %s 0)) (select (select %s %s) %s))", base.S, e.st.get(c.so.heapMapDom(t.Key(), t.Elem())), base.S, c.termOf(k))
+		return Val{T: t.Elem(), S: fmt.Sprintf("(ite %s (select (select %s %s) %s) %s)", has, e.st.get(kd), base.S, c.termOf(k), c.so.zero(t.Elem()))}
 	}
 	e.fail("cannot index %v", base.T)
 	return Val{}
@@ -669,6 +677,13 @@ func (e *SpecEnv) evalCall(x *SCall) Val {
 			}
 			k = e.coerce(k, mt.Key())
 			return Val{T: boolT, S: fmt.Sprintf("(and (not (= %s 0)) (select (select %s %s) %s))", m.S, e.st.get(c.so.heapMapDom(mt.Key(), mt.Elem())), m.S, c.termOf(k))}
+		case "first", "second", "third":
+			v := e.eval(x.Args[0])
+			i := map[string]int{"first": 0, "second": 1, "third": 2}[id.Name]
+			if v.Tup == nil || i >= len(v.Tup) {
+				e.fail("%s() applied to a value that is not a tuple of at least %d components", id.Name, i+1)
+			}
+			return v.Tup[i]
 		case "be64", "be32", "le64", "le32":
 			// the standard library decoders, as the same pure functions the code calls
 			full := map[string]string{"be64": "(encoding/binary.bigEndian).Uint64", "be32": "(encoding/binary.bigEndian).Uint32",
@@ -720,6 +735,35 @@ func (e *SpecEnv) evalCall(x *SCall) Val {
 		e.fail("unknown function %s", id.Name)
 	}
 	if sel, ok := x.Fun.(*SSelector); ok {
+		// package-qualified function:  time.ParseDuration(x)
+		if pid, isId := sel.X.(*SIdent); isId && e.pkg != nil {
+			if _, shadow := e.names[pid.Name]; !shadow {
+				if _, isLocal := e.tryIdent(pid.Name); !isLocal {
+					for _, imp := range e.pkg.Imports() {
+						if imp.Name() != pid.Name {
+							continue
+						}
+						fobj, isFn := imp.Scope().Lookup(sel.Sel).(*types.Func)
+						if !isFn {
+							break
+						}
+						fn := c.eng.prog.FuncValue(fobj)
+						if fn == nil {
+							e.fail("no SSA for %s.%s", pid.Name, sel.Sel)
+						}
+						var args []Val
+						for i, a := range x.Args {
+							v := e.eval(a)
+							if i < len(fn.Params) {
+								v = e.coerce(v, fn.Params[i].Type())
+							}
+							args = append(args, v)
+						}
+						return e.callPure(fn, args)
+					}
+				}
+			}
+		}
 		// method call on a value:  m.values()
 		recv := e.eval(sel.X)
 		obj, _, _ := types.LookupFieldOrMethod(recv.T, true, e.pkg, sel.Sel)
